@@ -149,6 +149,8 @@ def generate(rng, tier):
     elif r < 0.3:
         env['argv'] = ['xdsim']
     env['listing_seed'] = rng.randint(0, 99)
+    if rng.random() < 0.1:
+        env['warnings_error'] = True        # the host runs with -W error: directives that restate the state are still just directives
     defaults = rng.choice([None, None, None, None, {'SKIP': True}, {'IGNORE_WANT': True}, {'SKIP': False}, {'ELLIPSIS': False},
                            {'SKIP': True, 'ELLIPSIS': False}])
     how_defaults = rng.choice(['config', 'cli']) if defaults else None
